@@ -10,6 +10,7 @@ import (
 	"regexp"
 	"sort"
 	"strings"
+	"syscall"
 	"time"
 
 	"verif/ev"
@@ -21,7 +22,7 @@ func init() { Registry["C17"] = C17 }
 const c17Mod = "example.com/c17-mod.z"
 
 // package name -> directory below the module root
-var c17Dirs = map[string]string{"good": "good", "goodffi": "goodffi", "partial": "partial", "allbad": "allbad", "tagged": "tagged", "nested": "sub.d/p-q", "latebad": "latebad", "earlybad": "earlybad"}
+var c17Dirs = map[string]string{"good": "good", "goodffi": "goodffi", "partial": "partial", "allbad": "allbad", "tagged": "tagged", "nested": "sub.d/p-q", "latebad": "latebad", "earlybad": "earlybad", "cgotag": "cgotag"}
 
 func c17Sources(pkg string, ver int) map[string]string {
 	switch pkg {
@@ -42,6 +43,11 @@ func c17Sources(pkg string, ver int) map[string]string {
 			"t.go":         "package tagged\n\nfunc Use() uint64 {\n\treturn Variant()\n}\n",
 			"t_goose.go":   "//go:build goose\n\npackage tagged\n\nfunc Variant() uint64 {\n\treturn 4242\n}\n",
 			"t_nogoose.go": "//go:build !goose\n\npackage tagged\n\nfunc Variant() uint64 {\n\treturn 1717\n}\n"}
+	case "cgotag":
+		return map[string]string{
+			"u.go":     "package cgotag\n\nfunc Use() uint64 {\n\treturn Variant()\n}\n",
+			"c_on.go":  "//go:build cgo\n\npackage cgotag\n\nfunc Variant() uint64 {\n\treturn 1111\n}\n",
+			"c_off.go": "//go:build !cgo\n\npackage cgotag\n\nfunc Variant() uint64 {\n\treturn 2222\n}\n"}
 	case "earlybad":
 		// the declaration that does not translate lives in the file that sorts first; the last file is clean
 		return map[string]string{
@@ -168,10 +174,16 @@ func C17(c *ev.Ctx) {
 			c17Write(root, p, 1)
 		}
 	}
+	invN := 0
 	run := func(cwd string, args ...string) (string, int) {
 		cmd := exec.Command(goose, args...)
 		cmd.Dir = cwd
 		cmd.Env = goEnv()
+		// the number of processors the runtime may use must not matter (fewer workers than packages, one, many)
+		invN++
+		if gp := []string{"", "1", "2", "3", "5"}[invN%5]; gp != "" {
+			cmd.Env = append(cmd.Env, "GOMAXPROCS="+gp)
+		}
 		b, err := cmd.CombinedOutput()
 		code := 0
 		if ee, ok := err.(*exec.ExitError); ok {
@@ -211,6 +223,21 @@ func C17(c *ev.Ctx) {
 	if b := ref["tagged/1/full"]; !bytes.Contains(b, []byte("#4242")) || bytes.Contains(b, []byte("#1717")) {
 		c.Violation("c17.build-tag", "package tagged: the translation does not use the file selected by the goose build tag (expected the body returning 4242, not 1717)", map[string]string{"emitted.v": string(b)})
 	}
+	{
+		// the standard cgo constraint: goose must see the file `go list -tags goose` selects in the same environment
+		cmd := exec.Command("go", "list", "-tags", "goose", "-f", "{{.GoFiles}}", "./cgotag")
+		cmd.Dir, cmd.Env = root, goEnv()
+		lo, lerr := cmd.CombinedOutput()
+		b := ref["cgotag/1/full"]
+		switch {
+		case lerr != nil || b == nil:
+			c.Inconclusive("cgotag: go list / reference translation unavailable: %v %s", lerr, firstLines(string(lo), 3))
+		case strings.Contains(string(lo), "c_on.go") && (!bytes.Contains(b, []byte("#1111")) || bytes.Contains(b, []byte("#2222"))):
+			c.Violation("c17.build-constraint", "package cgotag: the Go toolchain selects c_on.go (//go:build cgo) in this environment but the translation does not use it (expected the body returning 1111)", map[string]string{"emitted.v": string(b), "go-list.txt": string(lo)})
+		case strings.Contains(string(lo), "c_off.go") && (!bytes.Contains(b, []byte("#2222")) || bytes.Contains(b, []byte("#1111"))):
+			c.Violation("c17.build-constraint", "package cgotag: the Go toolchain selects c_off.go (//go:build !cgo) in this environment but the translation does not use it (expected the body returning 2222)", map[string]string{"emitted.v": string(b), "go-list.txt": string(lo)})
+		}
+	}
 	if b := ref["partial/1/partial"]; b != nil {
 		defs := regexp.MustCompile(`(?m)^Definition (\w+)`).FindAllStringSubmatch(string(b), -1)
 		var names []string
@@ -237,6 +264,15 @@ func C17(c *ev.Ctx) {
 	} else {
 		c.Violation("c17.partial-missing", "package earlybad (failing declaration in the first of three files): no partial reference; the command reported no error for it or wrote nothing with -ignore-errors", nil)
 	}
+	// a directory on another file system (tmpfs) if there is one
+	otherFs := ""
+	if st1, st2 := new(syscall.Stat_t), new(syscall.Stat_t); syscall.Stat("/dev/shm", st1) == nil && syscall.Stat(c.Scratch, st2) == nil && st1.Dev != st2.Dev {
+		if d, err := os.MkdirTemp("/dev/shm", "verif-c17-"); err == nil {
+			otherFs = d
+			defer os.RemoveAll(d)
+		}
+	}
+	c.Set("output_on_other_filesystem", otherFs != "")
 	// ---- replay of the simulated invocation sequences ----
 	replayed, invs := 0, 0
 	old := time.Now().Add(-48 * time.Hour)
@@ -250,6 +286,12 @@ func C17(c *ev.Ctx) {
 		cwd := filepath.Join(c.Scratch, "c17cwd")
 		_ = os.RemoveAll(cwd)
 		_ = os.MkdirAll(cwd, 0755)
+		if otherFs != "" && bi%3 == 1 {
+			// working directory and output directory on another file system than the scratch / temporary directory
+			cwd = filepath.Join(otherFs, "cwd")
+			_ = os.RemoveAll(cwd)
+			_ = os.MkdirAll(cwd, 0755)
+		}
 		absOut := filepath.Join(cwd, "outdir")
 		ver := map[string]int{}
 		for pk := range c17Dirs {
